@@ -28,8 +28,35 @@ func genC10(t *rapid.T) snapCase {
 	}
 	c.SerfLayer = rapid.IntRange(0, 3).Draw(t, "serf-layer") == 0
 	c.Names = genNames(t, rapid.IntRange(0, 30).Draw(t, "allow-newline") == 0)
-	c.Ops = genOps(t, 60, map[int]int{opJoin: 6, opLeave: 2, opFailed: 2, opUpdate: 1, opReap: 1, opUser: 2,
-		opQuery: 2, opWitness: 2, opTick: 1, opAdvance: 1, opReopen: 1})
+	// the restarted node of the Serf layer may itself be one of the recorded
+	// members (it is: a node records its own join); 0 = a name of its own
+	c.SelfIdx = rapid.IntRange(0, 5).Draw(t, "self")
+	weights := map[int]int{opJoin: 6, opLeave: 2, opFailed: 2, opUpdate: 1, opReap: 1, opUser: 2,
+		opQuery: 2, opWitness: 2, opTick: 1, opAdvance: 1, opReopen: 1}
+	c.Ops = genOps(t, 60, weights)
+	// several events queued in front of the snapshot goroutine at once
+	if rapid.IntRange(0, 2).Draw(t, "bursts") == 0 {
+		for i := range c.Ops {
+			if c.Ops[i].K <= opQuery && rapid.IntRange(0, 2).Draw(t, "nw") != 0 {
+				c.Ops[i].NW = true
+			}
+		}
+	}
+	// an earlier life that ended in a graceful leave: the history proper is the
+	// life (lives) AFTER it, which starts from nobody (rejoin-after-leave off) or
+	// from the set known at that leave (on) and contains no graceful leave itself.
+	// No user events or queries in the earlier life: what a leave does to their
+	// recorded times is not stated anywhere.
+	if rapid.IntRange(0, 5).Draw(t, "earlier-life") == 0 {
+		c.Rejoin = rapid.Bool().Draw(t, "rejoin")
+		pw := map[int]int{opJoin: 6, opLeave: 1, opFailed: 1, opWitness: 1, opTick: 1, opAdvance: 1}
+		pro := genOps(t, 8, pw)
+		post := genOps(t, 4, map[int]int{opJoin: 3, opFailed: 1, opWitness: 1, opTick: 1})
+		ops := append(append(pro, hOp{K: opGracefulLeave}), post...)
+		ops = append(ops, hOp{K: opReopen})
+		c.Ops = append(ops, c.Ops...)
+		c.EarlierLife = true
+	}
 	return c
 }
 
@@ -73,6 +100,11 @@ func runHistory(c *snapCase, x *vkit.Ctx, label bool) (*snapRun, recovered, bool
 			x.Label("op:" + opNames[op.K])
 		}
 	}
+	if !r.settle() {
+		x.Violationf("event-not-forwarded", "an event handed over without waiting was not forwarded on the output channel")
+		r.cleanup()
+		return nil, recovered{}, false
+	}
 	r.closeSnap()
 	r.noteClock()
 	if err := r.openSnap(); err != nil {
@@ -99,6 +131,19 @@ func runHistory(c *snapCase, x *vkit.Ctx, label bool) (*snapRun, recovered, bool
 			x.Label("fs=real")
 		} else {
 			x.Label("fs=mem")
+		}
+		if c.EarlierLife {
+			x.Labelf("earlier-life-left:rejoin=%v", c.Rejoin)
+		}
+		shared := map[string]int{}
+		for _, a := range r.alive {
+			shared[a]++
+		}
+		for _, n := range shared {
+			if n > 1 {
+				x.Label("final:two-names-one-address")
+				break
+			}
 		}
 		x.NonTrivial(r.compactions >= 1 && removals >= 1 && unusual)
 	}
@@ -130,9 +175,15 @@ func compareState(x *vkit.Ctx, what string, rec recovered, alive map[string]stri
 func serfLayer(r *snapRun, x *vkit.Ctx) bool {
 	r.closeSnap()
 	nw := simnet.New(1)
-	const self = "restarted-self"
+	self := "restarted-self"
+	if k := r.c.SelfIdx; k > 0 {
+		if n := r.c.Names[(k-1)%len(r.c.Names)]; n != "" && len(n) <= 128 && !strings.ContainsAny(n, "\n/") {
+			self = n
+		}
+	}
 	n, err := node.New(nw, node.Opts{Name: self, Quiet: true, Mutate: func(sc *serf.Config) {
 		sc.SnapshotPath = r.path
+		sc.RejoinAfterLeave = r.c.Rejoin
 	}})
 	if err != nil {
 		x.Violationf("serf-create-on-snapshot-failed", "serf.Create on the snapshot failed: %v", err)
@@ -145,21 +196,35 @@ func serfLayer(r *snapRun, x *vkit.Ctx) bool {
 			want[name] = addr
 		}
 	}
+	if _, ok := r.alive[self]; ok {
+		x.Label("serf-layer:self-among-recorded")
+	}
 	got := map[string]string{}
-	dl := time.Now().Add(5 * time.Second)
-	for {
+	collect := func() {
 		for _, d := range nw.Dials() {
 			got[d.ToName] = d.To
 		}
-		if len(got) >= len(want) || time.Now().After(dl) {
-			break
+	}
+	// the rejoin pass announces its end in the log (every dial fails here: nobody
+	// is listening), so "no further dial will come" need not be guessed
+	if len(r.alive) > 0 {
+		dl := time.Now().Add(10 * time.Second)
+		for {
+			lg := n.Log.String()
+			if strings.Contains(lg, "Failed to re-join any previously known node") || strings.Contains(lg, "Re-joined to previously known node") {
+				break
+			}
+			if time.Now().After(dl) {
+				x.Inconclusive("serf-layer: the rejoin pass did not finish in 10 s")
+				return false
+			}
+			collect()
+			time.Sleep(200 * time.Microsecond)
 		}
-		time.Sleep(200 * time.Microsecond)
+	} else {
+		time.Sleep(2 * time.Millisecond)
 	}
-	time.Sleep(2 * time.Millisecond)
-	for _, d := range nw.Dials() {
-		got[d.ToName] = d.To
-	}
+	collect()
 	if aliveKey(got) != aliveKey(want) {
 		sig := "rejoin-dials-differ"
 		for name := range want {
@@ -169,7 +234,7 @@ func serfLayer(r *snapRun, x *vkit.Ctx) bool {
 				sig = "name-with-slash-not-rejoined"
 			}
 		}
-		x.Violationf(sig, "a node restarted on the snapshot dialled %s, the model's last known alive members are %s", aliveKey(got), aliveKey(want))
+		x.Violationf(sig, "a node %q restarted on the snapshot dialled %s, the model's last known alive members (without itself) are %s", self, aliveKey(got), aliveKey(want))
 		return false
 	}
 	st := n.Serf.Stats()
@@ -180,6 +245,14 @@ func serfLayer(r *snapRun, x *vkit.Ctx) bool {
 	if mt < uint64(r.lc.Time()) || et < r.maxEvent+1 || qt < r.maxQuery+1 {
 		x.Violationf("serf-clocks-not-restored", "restarted node clocks (member %d, event %d, query %d) are not past the recorded values (%d, %d, %d)",
 			mt, et, qt, uint64(r.lc.Time())-1, r.maxEvent, r.maxQuery)
+		return false
+	}
+	// "exactly the last recorded clock values": a node that has talked to nobody
+	// and issued nothing since its restart stands at the recorded value + 1 (what
+	// witnessing the recorded value gives), not anywhere beyond
+	if mt != uint64(r.lc.Time()) || et != r.maxEvent+1 || qt != r.maxQuery+1 {
+		x.Violationf("serf-clocks-beyond-recorded", "restarted node clocks (member %d, event %d, query %d): the recorded values are (%d, %d, %d), witnessing them gives (%d, %d, %d)",
+			mt, et, qt, uint64(r.lc.Time())-1, r.maxEvent, r.maxQuery, uint64(r.lc.Time()), r.maxEvent+1, r.maxQuery+1)
 		return false
 	}
 	x.Label("serf-layer")
